@@ -5,6 +5,6 @@ namespace HG
 def StepOut.log : StepOut → List Log
   | .ok _ l => l
   | .fail _ _ l => l
-  | .pause _ l => l
+  | .pause _ _ l => l
 
 end HG
